@@ -65,6 +65,7 @@ class C05(PropBase):
             firsts = [t.split('{')[0] for t in tpls.values()]
             roots[pc[0]] = posixpath.commonprefix(firsts)
         default = ctx['rawd']['default_path_config'] or ctx['rawd']['path_configs'][0][0]
+        path_types = {pc[0]: set(k for k, _ in dict((k, vv) for k, vv in pc[1])['templates']) for pc in ctx['rawd']['path_configs']}
         paths = {}     # cfg -> path -> uri
         bysid = {}     # sid -> cfg -> path
         for c, o in zip(cases, impl_out):
@@ -76,6 +77,12 @@ class C05(PropBase):
                     continue
                 uri = ob[3]
                 cfg = c.meta['cfg'] or default
+                ty = ob[0][1]
+                # a Sid whose type has no path template (or an untyped Sid) has path None; a typed one with a template has a path
+                if o[1] and (not ty or ty not in path_types.get(cfg, set())):
+                    fails.append((c, o, 'path(%s) of %r is %r although its type %r has no path template' % (cfg, uri, o[1][0], ty))); continue
+                if not o[1] and ty and ty in path_types.get(cfg, set()):
+                    fails.append((c, o, 'path(%s) of %r is None although its type %r has a path template' % (cfg, uri, ty))); continue
                 if o[1]:
                     p = o[1][0]
                     other = paths.setdefault(cfg, {}).get(p)
